@@ -11,27 +11,37 @@ tvars == <<offset, nw, ones, l, sum, allpos, pure>>
 
 Ev == Trace[l]
 IsEvent(k) == l <= Len(Trace) /\ Ev.k = k /\ Ev.abn = "" /\ l' = l + 1
-StateMatches(st) == offset' = st.off /\ nw' = st.nw /\ ones' = ToSet(st.ones)
+\* The property fixes Offset and the bits, and asks for "enough words for every bit": the number of words is
+\* taken from the log and must be at least what the machine needs (spare words are allowed).
+StateMatches(st) == offset' = st.off /\ ones' = ToSet(st.ones)
 OfWords(P, n) == BCeilDiv(BMax(BMax(n, IF P = {} THEN 0 ELSE Max(P) + 1), 0), W)
 IsAscSeq(s) == \A i \in 1..(Len(s) - 1) : s[i] < s[i + 1]
 
 TraceNew ==
     /\ IsEvent("BNew") /\ Ev.n >= 0
-    /\ New(Ev.n) /\ sum' = 0 /\ allpos' = {} /\ pure' = TRUE
+    /\ offset' = 0 /\ ones' = {} /\ nw' = Ev.st.nw /\ Ev.st.nw >= 0
+    /\ sum' = 0 /\ allpos' = {} /\ pure' = TRUE
     /\ StateMatches(Ev.st)
 
+\* the words the machine needs after Extend(L, size) / Set(pos, val) (Builder.tla), given the words it has
+NeedExtend(L, size) == LET last == IF Len(L) = 0 THEN -1 ELSE L[Len(L)]
+                           end  == IF last >= size THEN offset + last + 1 ELSE offset + size
+                       IN BMax(nw, BCeilDiv(end, W))
 TraceExtend ==
     /\ IsEvent("BExtend") /\ Ev.size >= 0 /\ IsAscSeq(Ev.pos) /\ (Len(Ev.pos) > 0 => Ev.pos[1] >= 0)
-    /\ Extend(Ev.pos, Ev.size)
+    /\ ones' = ones \cup {offset + Ev.pos[i] : i \in DOMAIN Ev.pos} /\ offset' = offset + Ev.size
+    /\ nw' = Ev.st.nw /\ Ev.st.nw >= NeedExtend(Ev.pos, Ev.size)
     /\ sum' = sum + Ev.size
     /\ allpos' = allpos \cup {offset + Ev.pos[i] : i \in DOMAIN Ev.pos}
     /\ pure' = (pure /\ (Len(Ev.pos) > 0 /\ allpos # {} => offset + Ev.pos[1] > Max(allpos)))
     /\ StateMatches(Ev.st) /\ EnoughWords'
-    /\ (pure' => /\ ToSet(Ev.st.ones) = allpos' /\ Ev.st.off = sum' /\ Ev.st.nw = OfWords(allpos', sum'))
+    \* while only Extend was called (ascending): the bits and Offset of what Of builds, and at least its words
+    /\ (pure' => /\ ToSet(Ev.st.ones) = allpos' /\ Ev.st.off = sum' /\ Ev.st.nw >= OfWords(allpos', sum'))
 
 TraceSet ==
     /\ IsEvent("BSet") /\ Ev.pos >= 0
-    /\ Set(Ev.pos, Ev.val)
+    /\ ones' = (IF Ev.val % 2 = 1 THEN ones \cup {Ev.pos} ELSE ones) /\ offset' = BMax(offset, Ev.pos + 1)
+    /\ nw' = Ev.st.nw /\ Ev.st.nw >= BMax(nw, Ev.pos \div W + 1)
     /\ pure' = FALSE /\ UNCHANGED <<sum, allpos>>
     /\ StateMatches(Ev.st) /\ EnoughWords'
     /\ Ev.st.off > Ev.pos /\ (Ev.val % 2 = 1 => Ev.pos \in ToSet(Ev.st.ones))
